@@ -78,6 +78,11 @@ def _consts(**kw: Any) -> Dict[str, Any]:
     return d
 
 
+def _jvm_tmp() -> List[str]:
+    # TLC unpacks the standard modules into java.io.tmpdir: keep that out of /tmp
+    return [f"java.io.tmpdir={scratch_dir('c14jvm')}"]
+
+
 def _dmg_key(dmg: Iterable[Iterable[Any]]) -> Tuple[Tuple[str, str], ...]:
     return tuple(sorted((str(x[0]), str(x[-1])) for x in dmg))
 
@@ -89,7 +94,7 @@ def _run_models(ctx: Ctx, quick: bool, companions: bool = True) -> Tuple[Dict[st
     base = dict(Doubles="few" if quick else "all", Reduced=quick, KSet={1, 3, 4, KMAX} if quick else set(range(1, KMAX + 1)))
     cfg = tlc.make_cfg(spec="Spec", constants=_consts(**base), invariants=["VerdictKF", "Sane", "NoNeedlessRaise"],
                        postcondition="Export", check_deadlock=False)
-    res = tlc.run_tlc("MC_ReadPath", cfg, env={"VERIF_OUT": out}, timeout_s=900, workers=workers,
+    res = tlc.run_tlc("MC_ReadPath", cfg, env={"VERIF_OUT": out}, timeout_s=900, workers=workers, jvm_props=_jvm_tmp(),
                       label=f"MC_ReadPath as-is (VerdictKF,Sane,NoNeedlessRaise) Doubles={base['Doubles']}")
     ctx.add_tlc(res)
     if not res.ok:
@@ -105,13 +110,13 @@ def _run_models(ctx: Ctx, quick: bool, companions: bool = True) -> Tuple[Dict[st
 def _companions(ctx: Ctx, quick: bool, base: Dict[str, Any], workers: int) -> None:
     # anti-vacuity: without the carve-outs the as-is model must break the rule (the two open findings)
     cfg0 = tlc.make_cfg(spec="Spec", constants=_consts(Doubles="none", Reduced=True, KSet={1}), invariants=["Verdict"], check_deadlock=False)
-    res0 = tlc.run_tlc("MC_ReadPath", cfg0, timeout_s=600, workers=workers, label="MC_ReadPath as-is, Verdict without carve-outs (must fail)")
+    res0 = tlc.run_tlc("MC_ReadPath", cfg0, timeout_s=600, workers=workers, jvm_props=_jvm_tmp(), label="MC_ReadPath as-is, Verdict without carve-outs (must fail)")
     if "Verdict" not in res0.violated:
         raise MachineryError("anti-vacuity: the as-is model no longer violates Verdict (findings fixed or model changed?)")
     # repairs modelled: the rule holds (up to the inherent pointer-and-target-lost case)
     cfg1 = tlc.make_cfg(spec="Spec", constants=_consts(RecoverOnMissingTarget=False, JsonObjectIsEmpty=False, **base),
                         invariants=["VerdictRepaired", "Sane"], check_deadlock=False)
-    res1 = tlc.run_tlc("MC_ReadPath", cfg1, timeout_s=900, workers=workers, label="MC_ReadPath repairs modelled (VerdictRepaired)")
+    res1 = tlc.run_tlc("MC_ReadPath", cfg1, timeout_s=900, workers=workers, jvm_props=_jvm_tmp(), label="MC_ReadPath repairs modelled (VerdictRepaired)")
     ctx.add_tlc(res1)
     if not res1.ok:
         raise MachineryError(f"the repaired model violates {res1.violated}:\n{res1.error_trace[:3000]}")
@@ -120,7 +125,7 @@ def _companions(ctx: Ctx, quick: bool, base: Dict[str, Any], workers: int) -> No
         for flag in ("ChecksumEnforced", "VerifyDefault"):
             cfgm = tlc.make_cfg(spec="Spec", constants=_consts(Doubles="none", Reduced=True, KSet={1}, **{flag: False}),
                                 invariants=["VerdictKF"], check_deadlock=False)
-            resm = tlc.run_tlc("MC_ReadPath", cfgm, timeout_s=600, workers=workers, label=f"MC_ReadPath {flag}=FALSE (must fail)")
+            resm = tlc.run_tlc("MC_ReadPath", cfgm, timeout_s=600, workers=workers, jvm_props=_jvm_tmp(), label=f"MC_ReadPath {flag}=FALSE (must fail)")
             if "VerdictKF" not in resm.violated:
                 raise MachineryError(f"anti-vacuity: model with {flag}=FALSE does not violate VerdictKF")
             av.append(f"{flag}=FALSE violates VerdictKF")
@@ -856,7 +861,8 @@ class Judge:
             if kind not in ("Raise", "Full"):
                 bad = f"returned {kind} although the damage is outside what the read needs"
         else:
-            self.obs[f"unconstrained:{special or '+'.join(sorted(KIND[r] + '.' + c for r, c in dmg))}:{kind}"] += 1
+            what = special or ("double-damage" if len(dmg) > 1 else "+".join(KIND[r] + "." + c for r, c in dmg))
+            self.obs[f"unconstrained:{what}:{kind}"] += 1
         if kind != case["kind"] and special is None:
             self.drift += 1
             self.drift_detail[f"{'+'.join(sorted(KIND[r] + '.' + c for r, c in dmg))}:{fam}:model={case['kind']}:code={kind}"] += 1
@@ -1047,8 +1053,6 @@ def run(ctx: Ctx) -> None:
 
     # ---- double damage (the pairs the model exported) ----
     pairs = sorted({_dmg_key(c["dmg"]) for c in cases if len(c["dmg"]) == 2})
-    if not quick:
-        pairs = pairs[:]
     n_pairs = 0
     for pi, pair in enumerate(pairs):
         reals = []
